@@ -958,6 +958,9 @@ def _handle_direction(e, position, part, ongoing):
             for child in direction_type:
                 # try to make a direction out of words
                 parse_result = parse_direction(child.text)
+                for direction in parse_result:
+                    if hasattr(direction, "staff"):
+                        direction.staff = staff
                 starting_directions.extend(parse_result)
 
         elif dt.tag == "wedge":
@@ -967,9 +970,13 @@ def _handle_direction(e, position, part, ongoing):
 
             if wedge_type in ("crescendo", "diminuendo"):
                 if wedge_type == "crescendo":
-                    o = score.IncreasingLoudnessDirection(wedge_type, wedge=True)
+                    o = score.IncreasingLoudnessDirection(
+                        wedge_type, wedge=True, staff=staff
+                    )
                 else:
-                    o = score.DecreasingLoudnessDirection(wedge_type, wedge=True)
+                    o = score.DecreasingLoudnessDirection(
+                        wedge_type, wedge=True, staff=staff
+                    )
                 starting_directions.append(o)
                 ongoing[key] = o
 
